@@ -54,6 +54,13 @@ Fixpoint list_eqb {A} (eqb : A -> A -> bool) (a b : list A) : bool :=
   | _, _ => false
   end.
 
+Fixpoint list_eqb2 {A B} (eqb : A -> B -> bool) (a : list A) (b : list B) : bool :=
+  match a, b with
+  | [], [] => true
+  | x :: a', y :: b' => eqb x y && list_eqb2 eqb a' b'
+  | _, _ => false
+  end.
+
 Definition option_eqb {A} (eqb : A -> A -> bool) (a b : option A) : bool :=
   match a, b with
   | None, None => true
